@@ -1,3 +1,4 @@
+import Sparrow.Proofs.KangAttenuation
 import Sparrow.Proofs.KangBandLocal
 import Sparrow.Proofs.KangRunText
 import Sparrow.Proofs.KangInitRefine
@@ -555,3 +556,19 @@ theorem directSoundKang_band_local (recv src : Nat → ℝ) (M M' : Nat → ℝ)
   Sparrow.directSoundKang_band_local recv src M M' c fs b hm
 
 end Sparrow.Props.C19.BandLocal
+
+namespace Sparrow.Props.C19.Attenuation
+open Sparrow Sparrow.Generated.KangFn
+
+/-- direct sound: `m = 0` gives exactly `1 / (4 π r²)` -/
+theorem directSoundKang_m0 (recv src : Nat → ℝ) (M : Nat → ℝ) (c fs : ℝ) (b : Nat) (h0 : M b = 0) :
+    (directSoundKang recv src M c fs).2 b =
+      1 / (4 * Real.pi * (Vec3.norm (Vec3.sub (Vec3.ofFn recv) (Vec3.ofFn src))) ^ 2) :=
+  Sparrow.directSoundKang_m0 recv src M c fs b h0
+
+/-- direct sound: non-increasing in the attenuation coefficient -/
+theorem directSoundKang_antitone (recv src : Nat → ℝ) (M M' : Nat → ℝ) (c fs : ℝ) (b : Nat) (h : M b ≤ M' b) :
+    (directSoundKang recv src M' c fs).2 b ≤ (directSoundKang recv src M c fs).2 b :=
+  Sparrow.directSoundKang_antitone recv src M M' c fs b h
+
+end Sparrow.Props.C19.Attenuation
